@@ -419,6 +419,13 @@ def compare(it, op, a, b, node):
         return VConst(r if op == "Eq" else not r)
     if op in ("Eq", "NotEq") and isinstance(a, VUnknown) and isinstance(b, VUnknown) and a.kind == b.kind and a.kind in ("dtype", "device", "layout") and a.tag == b.tag:
         return VConst(op == "Eq")  # the dtype / device of one tensor (or of its clone) equals itself
+    if op in ("Eq", "NotEq") and any(isinstance(x, VUnknown) and x.kind == "dtype" for x in (a, b)) and all(isinstance(x, (VUnknown, VExt)) for x in (a, b)):
+        # a tensor's dtype against another dtype: decided by the float widths when both are known floats (float32 is not float64)
+        from .ops_ext import dtype_width
+
+        wa, wb = dtype_width(a), dtype_width(b)
+        if wa in (32, 64) and wb in (32, 64):
+            return VConst((wa == wb) == (op == "Eq"))
     if isinstance(a, VUnknown) and a.kind == "shape" or isinstance(b, VUnknown) and b.kind == "shape":
         return VUnknown("shape-eq", "bool")
     return VUnknown("cmp", "bool")
